@@ -22,6 +22,7 @@ import CqlVerif.Drv.Race
 import CqlVerif.Drv.Tls
 import CqlVerif.Drv.Late
 import CqlVerif.Drv.Cfg
+import CqlVerif.Drv.Heal
 open CqlVerif.Drv
 
 def dispatchStream (stream op real : String) : Verdict :=
@@ -50,6 +51,7 @@ def dispatchStream (stream op real : String) : Verdict :=
   | "tls" => TlsStream.handle op real
   | "late" => LateStream.handle op real
   | "cfg" => CfgStream.handle op real
+  | "heal" => HealStream.handle op real
   | _ => { kind := "diff", detail := s!"unknown stream {stream}" }
 
 /-- the harness could not set the case up (no port, no connection): that says nothing about the code -/
